@@ -311,9 +311,9 @@ def gen_spec(rng):
 
 def gen_cases(tier, seed):
     q = tier == "quick"
-    cases = [{"kind": "direct", "idx": i, "seed": seed, "n": 40 if q else 400, "n_mono": 20000, "cost": 3} for i in range(8 if q else 64)]
+    cases = [{"kind": "direct", "idx": i, "seed": seed, "n": 40 if q else 400, "n_mono": 20000, "cost": 3} for i in range(8 if q else 128)]
     kinds = ["rw", "iwls", "mh_on", "mh_off", "hmc", "nuts"]
-    for i in range(42 if q else 600):
+    for i in range(42 if q else 1800):
         rng = rng_for(seed, "c11-eng", i)
         kind = kinds[i % len(kinds)]
         cfg = {"step": float(np.round(np.exp(rng.uniform(np.log(0.05), np.log(2.0))), 3)), "target": float(np.round(rng.uniform(0.2, 0.9), 2)),
